@@ -23,8 +23,8 @@ CHECKS.update({
  "C07": ("seq", "model_checking", "explicit-state BFS + all push/pop histories; complete key-table probe",
    "For 5 table seeds: incremental == from-scratch hash on every (node, move) of the BFS closures and families and after every push and every pop of all push sequences to depth n on game boards; the position->hash map over everything visited is a function and injective; every key of the table (read through Hash) is non-zero and pairwise distinct, so no single-component difference can cancel.",
    "Bounded by BFS depth / history length; 2^-64 coincidences ignored as the property allows.", "DESIGN.md §5 C07"),
- "C09": ("seq", "model_checking", "complete enumeration of pairs and triples over a score alphabet; all 2^32 floats for unary laws",
-   "All pairs and triples over won, lost, every mate distance an int8 can hold and ~40 boundary floats are checked against a rank-tuple model: agreement with the stated order, trichotomy, transitivity, negation involutive and order-reversing, one more ply order-preserving, Max/Min. Thorough also walks every non-NaN float32 payload through the unary and neighbour laws.",
+ "C09": ("seq", "model_checking", "complete enumeration of pairs and triples over a score alphabet closed under the score operations; all 2^32 floats for unary laws",
+   "All pairs and triples over won, lost, every mate distance an int8 can hold and ~40 boundary floats - the set closed breadth-first under the score-producing operations Negate / IncrementMateDistance / DecrementMateDistance, values kept apart structurally - are checked against a rank-tuple model: agreement with the stated order, trichotomy, transitivity, negation involutive and order-reversing, one more ply order-preserving, Max/Min. Thorough also walks every non-NaN float32 payload through the unary and neighbour laws.",
    "NaN and the Invalid score are not constructible scores. The int8 wrap-around at |k|=127/128 is a recorded known finding.", "DESIGN.md §5 C09"),
 })
 
@@ -53,9 +53,9 @@ CHECKS.update({
  "C03": ("seq", "model_checking", "exhaustive enumeration of (root, depth, configuration) cases vs unpruned reference negamax/quiescence",
    "Full-window alpha-beta in 7 configurations (static leaf, captures-only quiescence, TUROCHAMP, SARGON, BERNSTEIN at three branch limits) is compared at every depth 0..D on a corpus of mate nets, endgames, tactical fragments and roots whose history makes draws occur inside the tree with an unpruned reference search that uses the reference rules, draw events and score order; the PV must be legal, within depth, non-empty when it must be, its first move must attain the value, and the board must come back unchanged.",
    "The reference search calls the implementation's evaluator and exploration predicate (that is what 'same leaf evaluation / same explored moves' means); bounded by corpus and depth; reference node budget reported if hit.", "DESIGN.md §5 C03"),
- "C11": ("seq", "model_checking", "exhaustive enumeration of search sequences sharing one table; every exact store validated against the reference value",
-   "For 12 roots x 2 position-determined configurations x 5 table sizes x 3 kinds of search sequence (iterative deepening, repeats, successive positions of a game) every search must return the table-less score and a PV starting with a best move, and every ExactBound store - mapped back to its position through the Exploration/QuietSearch seams - must equal the reference minimax value of that position at that depth.",
-   "Reference values are computed on fresh games, valid because the corpus excludes trees with repetition/fifty-move draws (as the property does).", "DESIGN.md §5 C11"),
+ "C11": ("seq", "model_checking", "exhaustive enumeration of search sequences sharing one table (incl. every move and reply between two iterative deepenings); every exact store and every exact entry held validated against the reference value",
+   "For 17 roots x 2 position-determined configurations x 5 table sizes x 4 kinds of search sequence (iterative deepening, repeats, successive positions of a game, iterative deepening at successive positions) plus, for the low-branching roots, iterative deepening / EVERY move and EVERY reply / iterative deepening again: every search must return the table-less score and a PV starting with a best move, and every ExactBound store - mapped back to its position through the Exploration/QuietSearch seams - as well as every exact entry the table serves afterwards (swept by Read) must equal the value of that position at that depth.",
+   "Reference values are exhaustive minimax on fresh games, valid because the corpus excludes trees with repetition/fifty-move draws (as the property does); on the five capture-rich middlegame roots exhaustive minimax is out of reach and the value is what the search itself returns without a table.", "DESIGN.md §5 C11"),
  "C12": ("seq", "fault_enumeration", "fault enumeration: the search is cancelled at every one of its N cancellation polls",
    "Every cancellation point of every case (alpha-beta with static leaf or quiescence on an empty or warmed table, Minimax, SARGON's nested search) is exercised: the search must report ErrHalted, return the board unchanged, leave only true exact entries in the table, and follow-up searches on the same table must return what they return on a table that never saw the halted search.",
    "Cancellation is observed only where the search polls its context; the poll count N is measured per case on the current tree.", "DESIGN.md §5 C12"),
@@ -67,16 +67,16 @@ CHECKS.update({
 CHECKS.update({
  "C04": ("mc", "model_checking", "stateless exploration of all schedules within a deviation bound x enumerated stop/timer instants, real goroutines on a controlled scheduler",
    "The real driver, engine and iterative-deepening search of every bundled engine (construction lifted from cmd/*/main.go at check time) run on the controlled scheduler; engine x option x set-up x go-variant scenarios are crossed with every release instant of `stop` and of the timers on a grid over the whole run, and every schedule within the deviation bound is executed to completion: every go gets exactly one bestmove, legal in the position last set up, 0000 only without legal moves.",
-   "Searches are tiny (K v K, fortress roots; depth <= 2) because every cancellation poll is a scheduling point; timers are arbitrary delays; weak-memory effects are not modelled.", "DESIGN.md §3, §5 C04"),
+   "Searches are tiny (K v K, fortress roots; depth <= 2) because every cancellation poll is a scheduling point; timers are arbitrary delays; weak-memory effects are not modelled; plain accesses of the driver packages are clock-checked and racing sites, if any, become scheduling points (none on this tree).", "DESIGN.md §3, §5 C04"),
  "C15": ("mc", "model_checking", "stateless exploration of all schedules within a deviation bound x enumerated halt instants; complete grid for the time-control limits",
    "searchctl.Iterative runs on the controlled scheduler with a consumer, a halter released at every step of a grid over the run, the hard-limit timer and environment answers for time.Since; every schedule within the bound is checked against direct fixed-depth searches (faithful, increasing, ends exactly when it must, Halt guarantees). TimeControl.Limits is enumerated over a complete grid.",
-   "Small roots only; the 'reported before the halt was requested' clause is evaluated on what the consumer had received.", "DESIGN.md §5 C15"),
+   "Small roots only; the 'reported before the halt was requested' clause is evaluated on what the consumer had received; plain accesses of searchctl are clock-checked and racing sites, if any, become scheduling points (none on this tree).", "DESIGN.md §5 C15"),
  "C16": ("mc", "model_checking", "stateless exploration of all schedules within a deviation bound x enumerated injection instants, real goroutines on a controlled scheduler",
    "GUI scripts `position; go X; <interrupting word>; isready; quit|EOF` over a 10-command alphabet (words of length <= 2) run against the real driver with the interrupting command released at every step of a grid over the uninterrupted run; every schedule within the deviation bound is executed and its event log checked: no panic, no deadlock, isready answered, no stale/duplicate/unsolicited bestmove, clean shutdown.",
-   "K v K roots with the two colours to move so that a bestmove identifies its search; horizon-cut executions are inconclusive and counted.", "DESIGN.md §5 C16"),
- "C17": ("mc", "model_checking", "stateless exploration of ALL interleavings of small table harnesses (no bound) with a brute-force linearizability check",
-   "2-3 threads x 1-3 operations on colliding keys of 1-4-slot tables; every interleaving of the atomic steps (pointer load/CAS, counter update) is executed and the call/return history checked: hits return one single store's tuple, history linearizable w.r.t. the sequential table including the replacement rule, fill fraction exact at quiescence and within [0,1].",
-   "Sequentially consistent atomics (no weak-memory reordering); data races are looked for by the separate free-running -race pass.", "DESIGN.md §5 C17"),
+   "K v K roots with the two colours to move so that a bestmove identifies its search; horizon-cut executions are inconclusive and counted; plain accesses of the driver packages are clock-checked and racing sites, if any, become scheduling points (none on this tree).", "DESIGN.md §5 C16"),
+ "C17": ("mc", "model_checking", "stateless exploration of ALL interleavings of small table harnesses (no bound) with a brute-force linearizability check and vector-clock data-race detection over rewritten plain accesses",
+   "2-3 threads x 1-3 operations on colliding keys of 1-4-slot tables; every interleaving of the atomic steps (pointer load/CAS, counter update) is executed and checked: no two plain accesses to the same byte, one a store, left unordered by the happens-before relation of that interleaving (every field/element access of transposition.go is wrapped by the rewriter; vector clocks); hits return one single store's tuple, history linearizable w.r.t. the sequential table including the replacement rule, fill fraction exact at quiescence and within [0,1].",
+   "Sequentially consistent atomics (no weak-memory reordering beyond what a data race admits: races are decided per interleaving by the clocks; the free-running -race pass only cross-checks the shim).", "DESIGN.md §5 C17"),
 })
 
 CHECKS.update({
